@@ -57,9 +57,12 @@ def read_everything(t):
 class Grammar(object):
     """The edit grammar of DESIGN.md section 4 / C06 over a fixed data set."""
 
-    def __init__(self, data, subtree_variants=("same", "flat", "single", "chain"), serial=("dict", "pickle"), moves_on_full_only=False, warm=True):
+    def __init__(self, data, subtree_variants=("same", "flat", "single", "chain"), serial=("dict", "pickle"), moves_on_full_only=False, warm=True, raw_grafts=False):
         self.moves_on_full_only = moves_on_full_only
         self.warm = warm
+        # raw_grafts: the graft events stop after add_subtree (no full update() afterwards): the state the tree is in between
+        # the graft and the samplers' update() call, which must already be consistent (add_subtree refreshes the path itself)
+        self.raw_grafts = raw_grafts
         self.data = data
         self.dmap = {d.idx: d for d in data}
         self.subtree_variants = subtree_variants
@@ -156,7 +159,8 @@ class Grammar(object):
             pr.remove_subtree(sub)
             nt = pr.copy()
             nt.add_subtree(sub, parent=ev[2])
-            nt.update()
+            if not self.raw_grafts:
+                nt.update()
             return nt
         if k == "sub":  # ParticleGibbsSubtreeSampler.sample_tree + _correct_weights
             t = t.copy()
@@ -188,7 +192,8 @@ class Grammar(object):
             nt.add_subtree(sub, parent=par)
             for dp in sub.outliers:
                 nt.add_data_point_to_outliers(dp)
-            nt.update()
+            if not self.raw_grafts:
+                nt.update()
             return nt
         if k == "relabel":
             t = t.copy()
